@@ -26,12 +26,12 @@ import (
 
 // Result of running one case.
 type Result struct {
-	Err        string   `json:"err,omitempty"`        // non-empty: oracle failure (a violation)
-	Nontrivial bool     `json:"nontrivial,omitempty"` // by the unit's stated rule
-	Labels     []string `json:"labels,omitempty"`     // class labels for the histogram
-	Excluded   string   `json:"excluded,omitempty"`   // non-empty: case hit the shape of an open known finding and was not judged
-	Inconcl    string   `json:"inconclusive,omitempty"`
-	Sample     any      `json:"sample,omitempty"` // optional compact rendering of the case for the evidence file (default: the case)
+	Err        string         `json:"err,omitempty"`        // non-empty: oracle failure (a violation)
+	Nontrivial bool           `json:"nontrivial,omitempty"` // by the unit's stated rule
+	Labels     []string       `json:"labels,omitempty"`     // class labels for the histogram
+	Excluded   string         `json:"excluded,omitempty"`   // non-empty: case hit the shape of an open known finding and was not judged
+	Inconcl    string         `json:"inconclusive,omitempty"`
+	Sample     any            `json:"sample,omitempty"` // optional compact rendering of the case for the evidence file (default: the case)
 	Counts     map[string]int `json:"counts,omitempty"` // additional measured counters, summed into the class histogram
 }
 
@@ -215,7 +215,19 @@ func Run[C any](t *testing.T, unit string, gen func(*rapid.T) C, run func(C) Res
 	st := newStats(unit)
 	defer st.flush()
 	journal := os.Getenv("VERIF_JOURNAL") != ""
+	// Shrinking budget. rapid's -rapid.shrinktime is only looked at between shrink passes, and one attempt of a
+	// session-level case can take seconds (or a child timeout), so a failing shard could go on for many minutes.
+	// Once a failure has been recorded, every attempt after the budget fails at once without running and without
+	// touching the replay file: the file keeps the smallest case that really failed.
+	budget := 90 * time.Second
+	if v, err := time.ParseDuration(os.Getenv("VERIF_SHRINK_BUDGET")); err == nil && v > 0 {
+		budget = v
+	}
+	var firstFail time.Time
 	rapid.Check(t, func(rt *rapid.T) {
+		if !firstFail.IsZero() && time.Since(firstFail) > budget {
+			rt.Fatalf("shrink budget of %v used up; the last case that really failed is in the replay file", budget)
+		}
 		c := gen(rt)
 		raw, err := json.Marshal(c)
 		if err != nil {
@@ -229,6 +241,9 @@ func Run[C any](t *testing.T, unit string, gen func(*rapid.T) C, run func(C) Res
 		st.record(raw, c, &r)
 		if r.Err != "" {
 			st.Failed = true
+			if firstFail.IsZero() {
+				firstFail = time.Now()
+			}
 			writeFail(unit, raw, r.Err)
 			rt.Fatalf("%s", firstLines(r.Err, 30))
 		}
@@ -252,7 +267,7 @@ type Finding struct {
 	Commit     string `json:"commit,omitempty"`
 	What       string `json:"what"`
 	Reproducer string `json:"reproducer"`
-	Signature  string `json:"signature"` // substring that the failure message of the reproducer must contain
+	Signature  string `json:"signature"`      // substring that the failure message of the reproducer must contain
 	Race       string `json:"race,omitempty"` // for data-race findings: "<funcA> <-> <funcB>" (innermost rain frames, sorted)
 }
 
